@@ -56,6 +56,11 @@ func (p *Profile) defaultReplay(t *testing.T, plan Plan, keepTrace bool) *RunRes
 	return runSequence(t, plan, nil, p.Oracle, keepTrace)
 }
 
+// curRunIndex is the index of the current run within its batch (-1 outside a
+// batch). Enumerating profiles use it to walk their table in order instead of
+// sampling it, so that a batch covers every row.
+var curRunIndex = -1
+
 func (p *Profile) run(t *testing.T, seed uint64, tier string) *RunResult {
 	if p.Run != nil {
 		return p.Run(t, seed, tier)
@@ -115,7 +120,7 @@ func init() {
 		"everify_start": 1, "everify_end": 1, "login_get": 1, "app_session_put": 1, "recover_end_get": 1, "op_start_confirm": 1,
 		"totp_setup_get": 1, "sms_setup_get": 1,
 	}
-	loginTemplates := []string{"login_ok", "remember_cycle", "recover_flow", "register_flow", "oauth_flow", "otp_flow", "fail_burst", "forged_cookie"}
+	loginTemplates := []string{"login_ok", "remember_cycle", "recover_flow", "register_flow", "oauth_flow", "otp_flow", "fail_burst", "forged_cookie", "pw_near_miss"}
 	register(&Profile{
 		ID: "C01",
 		Config: func(r *Rng, tier string) Config {
@@ -194,7 +199,7 @@ func init() {
 		},
 		Gen: func(r *Rng, tier string) *genProfile {
 			return &genProfile{MaxSteps: steps(tier, 40, 100), Default: 0, FollowUp: 70, Template: 25,
-				Templates: []string{"otp_flow", "login_ok", "otp_fill"},
+				Templates: []string{"otp_flow", "login_ok", "otp_fill", "totp_replay"},
 				Weights: withW(loginWeights, map[string]int{"otp_login": 20, "otp_add": 10, "otp_clear": 2, "replay": 12, "totp_validate": 8, "sms_validate": 8,
 					"recovery_regen": 3, "totp_remove": 2, "sms_remove": 2, "register": 0, "recover_start": 0, "recover_end": 0, "confirm": 0, "oauth2_start": 0, "oauth2_callback": 0,
 					"advance": 6}),
@@ -244,6 +249,7 @@ func init() {
 				c.ensureModules("remember")
 			}
 			c.EmailAuth2FA = false
+			c.PwAllowSpace = r.Bool()
 			if r.Chance(2, 3) {
 				c.dropModules("lock")
 			}
@@ -400,7 +406,8 @@ func init() {
 		},
 		Gen: func(r *Rng, tier string) *genProfile {
 			return &genProfile{MaxSteps: steps(tier, 30, 70), Default: 0, FollowUp: 70, Template: 50,
-				Templates: []string{"enroll_totp", "enroll_sms", "everify_probe", "remove_factor", "remove_factor", "spent_recovery_remove", "halfauth_settings", "adversary_codes"},
+				Templates: []string{"enroll_totp", "enroll_sms", "everify_probe", "remove_factor", "remove_factor", "spent_recovery_remove", "halfauth_settings", "adversary_codes",
+					"second_factor_enrol", "twofa_then_other_password"},
 				Weights: withW(loginWeights, map[string]int{"totp_setup": 6, "totp_confirm": 6, "totp_remove": 6, "sms_setup": 6, "sms_confirm": 6, "sms_remove": 6,
 					"recovery_regen": 2, "everify_start": 5, "everify_end": 6, "totp_setup_get": 2, "sms_setup_get": 2, "recover_start": 0, "recover_end": 0, "otp_login": 2,
 					"drop_session": 4, "probe": 3}),
